@@ -7,6 +7,7 @@ CONSTANTS
     MaxWrites = 1000000
     MaxLifecycle = 1000000
     Dedup = TRUE
+    FailCleansUp = TRUE
 INVARIANTS
     TypeOK
     TableConsistent
